@@ -8,6 +8,7 @@ import (
 	"fmt"
 	"io"
 	"net/http"
+	"runtime/debug"
 	"strconv"
 	"strings"
 
@@ -52,6 +53,7 @@ type rpcState struct {
 	served      bool
 	ServeSeq    uint64
 	ServePanic  string
+	ServePanicStack string
 	Backend     []*BackendObs
 	Panics      []string
 	Outcome     *Outcome
@@ -65,6 +67,9 @@ type rpcState struct {
 	BodyTotal    int
 	CutAt        int // offset at which the request body was cut (-1 none)
 	CutKind      string
+	respLen      int      // length of the body the backend rendered (for fault enumeration)
+	respComp     string   // compression the backend used
+	respPayloads [][]byte // wire payloads of the backend's data frames
 }
 
 type RunResult struct {
@@ -597,6 +602,7 @@ func serverTask(st *rpcState, tr *vanguard.Transcoder) {
 				w.Logf("server.backend-panic", "%s", sp.where)
 			} else {
 				st.ServePanic = fmt.Sprintf("%v", r)
+				st.ServePanicStack = panicSite(debug.Stack())
 				w.Logf("server.panic", "%v", r)
 			}
 		}
@@ -673,4 +679,22 @@ func eqBytesSeq(a, b [][]byte) bool {
 		}
 	}
 	return true
+}
+
+// panicSite extracts the vanguard frames of a panic stack (file:line list), for the reader of a report.
+func panicSite(stack []byte) string {
+	var out []string
+	for _, line := range strings.Split(string(stack), "\n") {
+		line = strings.TrimSpace(line)
+		if strings.HasPrefix(line, "/repo/") && !strings.Contains(line, "internal/verifsim") {
+			if i := strings.IndexByte(line, ' '); i > 0 {
+				line = line[:i]
+			}
+			out = append(out, strings.TrimPrefix(line, "/repo/"))
+			if len(out) >= 4 {
+				break
+			}
+		}
+	}
+	return strings.Join(out, " < ")
 }
